@@ -142,7 +142,8 @@ LoadTree(t, h) ==
 ----------------------------------------------------------------------------
 \* edits of a list of the original before it is copied (list.py:94-96, 109-113)
 
-FreshLeaf == [MkNode("scalar", Atom("i", "7"), <<>>) EXCEPT !.dsafe = "F"]   \* created outside any parse: _default_safe False
+\* a value wrapped outside any parse, in a thread that has parsed before: _default_safe is the restored default True (node.py:158-171,194)
+FreshLeaf == MkNode("scalar", Atom("i", "7"), <<>>)
 
 \* ayns.set_child of a NEW node below cell p under name k (adopted by p)
 NewChildCell(p, v) ==
